@@ -12,6 +12,8 @@ pub struct ExBytesMut(BytesMut);
 #[verifier::external_body]
 pub struct ExBytes(Bytes);
 
+/// the octets of a string slice (its UTF-8 encoding)
+pub uninterp spec fn str_bytes(s: &str) -> Seq<u8>;
 pub uninterp spec fn bm_view(b: &BytesMut) -> Seq<u8>;
 pub uninterp spec fn b_view(b: &Bytes) -> Seq<u8>;
 /// ghost counter: total size explicitly requested through `BytesMut::reserve` on this buffer
@@ -129,3 +131,5 @@ pub assume_specification[ <Bytes as core::convert::AsRef<[u8]>>::as_ref ](b: &By
 // a clone of a `Bytes` is a second handle on the same immutable octets
 pub assume_specification[ <Bytes as Clone>::clone ](b: &Bytes) -> (r: Bytes)
     ensures r == *b;
+pub assume_specification[ <Bytes as core::convert::From<&'static str>>::from ](s: &'static str) -> (r: Bytes)
+    ensures b_view(&r) == str_bytes(s);
